@@ -1145,6 +1145,15 @@ def b_hasattr(I, f, args, kw):
             unsized = z3.Or(PyVal.is_PNone(t), PyVal.is_PB(t), PyVal.is_PI(t), PyVal.is_PF(t), PyVal.is_PC(t),
                             PyVal.is_PD(t), PyVal.is_PDT(t), PyVal.is_PTd(t))
             return VBool(z3.If(sized, True, z3.If(unsized, False, hf(t, name.t))))
+        if cn is not None:
+            # exact for values of the exact builtin scalar classes (a PI / PS value may be an
+            # instance of a subclass - IntEnum, str subclass - so those stay uninterpreted)
+            import datetime as _dt
+            term = hf(t, name.t)
+            for rec, cls in ((PyVal.is_PNone, type(None)), (PyVal.is_PB, bool), (PyVal.is_PF, float), (PyVal.is_PC, complex),
+                             (PyVal.is_PBy, bytes)):
+                term = z3.If(rec(t), z3.BoolVal(hasattr(cls, cn)), term)
+            return VBool(term)
         return VBool(hf(t, name.t))
     if isinstance(obj, (VList, VSeq)) and cn is not None:
         return VBool(hasattr(list, cn) if not (isinstance(obj, VSeq) and obj.kind in ('tuple', 'gen', 'range')) else hasattr(tuple if obj.kind == 'tuple' else range if obj.kind == 'range' else type(x for x in ()), cn))
